@@ -10,14 +10,14 @@ import (
 
 // Graph facts derived from the syntax of each node.
 type graphInfo struct {
-	a            *Analysis
-	handlerLoop  map[string]bool     // node receives client messages in a loop and dispatches on their type
-	sessDeletes  map[string][]string // node -> owner struct types of maps from which a *Session key is deleted
-	goTargets    map[string][]string // node -> keys of nodes it launches with go
-	asyncEdges   map[string][]string // node -> literals it sends on a channel
-	ranges       map[string]string   // channel field key -> node ranging over it
-	sentOnField  map[string]string   // literal key -> channel field key
-	reachMemo    map[string]map[string]bool
+	a              *Analysis
+	handlerLoop    map[string]bool     // node receives client messages in a loop and dispatches on their type
+	sessDeletes    map[string][]string // node -> owner struct types of maps from which a *Session key is deleted
+	goTargets      map[string][]string // node -> keys of nodes it launches with go
+	asyncEdges     map[string][]string // node -> literals it sends on a channel
+	ranges         map[string]string   // channel field key -> node ranging over it
+	sentOnField    map[string]string   // literal key -> channel field key
+	reachMemo      map[string]map[string]bool
 	precedingCalls map[*ast.CallExpr][]string
 }
 
